@@ -16,6 +16,8 @@ import (
 	"testing"
 	"time"
 
+	"github.com/zitadel/oidc/v3/pkg/op"
+
 	"verif/harness/engine"
 	"verif/harness/rig"
 	"verif/harness/rig/refstore"
@@ -152,9 +154,33 @@ const quickDefaults = 3
 // client registrations
 type regDef struct {
 	key          string
+	exA, exB     []string // exact registrations of A / B (nil = the common lists aExact / bExact)
 	aGlobs       []string
 	aOpt, bOpt   bool
 	aHasBadGlobs bool
+}
+
+func (rd regDef) exactA() []string {
+	if rd.exA != nil {
+		return rd.exA
+	}
+	return aExact
+}
+
+func (rd regDef) exactB() []string {
+	if rd.exB != nil {
+		return rd.exB
+	}
+	return bExact
+}
+
+// globsB: B has its globs on file whenever the registration has globs at all; they count
+// only when bOpt.
+func (rd regDef) globsB() []string {
+	if rd.aGlobs != nil {
+		return bGlobs
+	}
+	return nil
 }
 
 var (
@@ -192,6 +218,11 @@ func regOf(key string) regDef {
 			return r
 		}
 	}
+	for _, r := range nmRegs {
+		if r.key == key {
+			return r
+		}
+	}
 	panic("c18: no registration " + key)
 }
 
@@ -218,7 +249,10 @@ func buildSpace(full bool) engine.Space {
 // ---------------------------------------------------------------------------
 // rigs: one real provider (both routers) per (default URI, registration, storage), per worker
 
-func newRig(def, reg, storage string) *rig.Rig {
+func newRig(def, reg, storage string) *rig.Rig { return newRigIss(def, reg, storage, nil) }
+
+// newRigIss: issuerFn == nil = the rig's static issuer.
+func newRigIss(def, reg, storage string, issuerFn func(bool) (op.IssuerFromRequest, error)) *rig.Rig {
 	cfg := rig.DefaultConfig() // users u1,u2; ES256 signing key "sig-1" (fixture p256a)
 	rd := regOf(reg)
 	base := cfg.Clients["web"]
@@ -232,13 +266,9 @@ func newRig(def, reg, storage string) *rig.Rig {
 		c.UseGlobs = opt
 		return &c
 	}
-	var bg []string
-	if rd.aGlobs != nil {
-		bg = bGlobs // registered for B whenever the registration has globs at all; opted in only when bOpt
-	}
 	cfg.Clients = map[string]*refstore.Client{
-		clA: mk(clA, aExact, rd.aGlobs, rd.aOpt),
-		clB: mk(clB, bExact, bg, rd.bOpt),
+		clA: mk(clA, rd.exactA(), rd.aGlobs, rd.aOpt),
+		clB: mk(clB, rd.exactB(), rd.globsB(), rd.bOpt),
 	}
 	opc := rig.DefaultOPConfig()
 	opc.DefaultLogoutRedirectURI = valOf(defaults, def)
@@ -246,7 +276,7 @@ func newRig(def, reg, storage string) *rig.Rig {
 	if storage == "TerminateSession" {
 		caps &^= refstore.CapTS
 	}
-	return rig.MustNew(rig.Opts{Cfg: cfg, OP: opc, Caps: &caps})
+	return rig.MustNew(rig.Opts{Cfg: cfg, OP: opc, Caps: &caps, IssuerFn: issuerFn})
 }
 
 type observed struct {
@@ -258,6 +288,12 @@ type observed struct {
 }
 
 func execute(t *testing.T, r *rig.Rig, router int, method string, form url.Values) observed {
+	return executeAt(t, r, router, method, form, rig.Host, nil)
+}
+
+// executeAt: the request is addressed to the virtual host `host` (URL authority and Host
+// header) and carries the extra headers hdr.
+func executeAt(t *testing.T, r *rig.Rig, router int, method string, form url.Values, host string, hdr map[string]string) observed {
 	var o observed
 	r.Core.Reset(refstore.NewState())
 	pan := engine.Bubble(t, nowOffset, func() {
@@ -269,6 +305,13 @@ func execute(t *testing.T, r *rig.Rig, router int, method string, form url.Value
 			}
 		} else {
 			req = rig.Req(method, "/end_session", form, nil)
+		}
+		if host != rig.Host {
+			req.Host = host
+			req.URL.Host = host
+		}
+		for k, v := range hdr {
+			req.Header.Set(k, v)
 		}
 		resp := r.Do(router, req)
 		o.status = resp.Status
@@ -337,5 +380,7 @@ func TestCheck(t *testing.T) {
 			}
 		},
 	})
+	runNearMiss(t, c, full)
+	runHosts(t, c, full)
 	c.Finish()
 }
